@@ -4,6 +4,7 @@ CONSTANTS
   Modes = {"impl"}
   MaxHops = 0
   Statuses = {400, 404, 416, 429, 500}
+  SweepStatuses <- SweepAll
   Kinds = {"BODY", "HEAD"}
   Export = TRUE
 INVARIANTS Emit
